@@ -40,7 +40,7 @@ def tasks(tier, seed):
 def extra(led, tier, seed):
     from contracts import rt_obligations, prox_native
     led.obs = [o for o in led.obs if o.name.endswith((":safety", ":no-exception", ":grad shape", "finite (no non-finite value reaches them)", ":shapes", ":shape"))
-               or "empty cluster gradient" in o.name or ":paths-explored" in o.name or "direction[" in o.name or "len(grads)" in o.name or ".shape" in o.name]
+               or "empty cluster gradient" in o.name or ":paths-explored" in o.name or o.name.startswith("size ladder") or "direction[" in o.name or "len(grads)" in o.name or ".shape" in o.name]
     led.extend(rt_obligations.degenerate_obligations(seed, tier))
     led.extend(rt_obligations.mlcl_degenerate_obligations(seed))
     led.extend(prox_native.zero_case())
